@@ -133,31 +133,49 @@ def main():
     # 3. correspondence
     corr_results = []
     driver_ok = os.path.exists(corr.DRIVER)
+    crashes = []
     for k in CORR[prop]:
         if not driver_ok:
             break
-        if k == 'K-cat':
-            corr_results.append(corr.k_cat(prop, tier))
-        elif k == 'K-tok':
-            corr_results.append(corr.k_tok(prop, tier))
-        elif k == 'K-parse':
-            corr_results.append(corr.k_parse(prop, tier))
-        else:
-            r = corr_more.run(k, prop, tier)
-            if r is not None:
-                corr_results.append(r)
+        try:
+            if k == 'K-cat':
+                corr_results.append(corr.k_cat(prop, tier))
+            elif k == 'K-tok':
+                corr_results.append(corr.k_tok(prop, tier))
+            elif k == 'K-parse':
+                corr_results.append(corr.k_parse(prop, tier))
+            else:
+                r = corr_more.run(k, prop, tier)
+                if r is not None:
+                    corr_results.append(r)
+        except BaseException:      # noqa
+            import traceback
+            crashes.append({'kind': 'harness-crash', 'stage': k, 'traceback': traceback.format_exc()[-1200:]})
     if driver_ok and any(k in ('K-tok', 'K-parse') for k in CORR[prop]):
-        tc, _ = corr.tok_cases(prop, 'quick')
-        pc, _ = corr.parse_cases(prop, 'quick')
-        rng = common.rng_for(prop, 'incoq')
-        corr_results.append(corr.in_coq_sample(prop, rng.sample(tc, 60) + tc[-10:],
-                                               rng.sample(pc, 60) + pc[-10:]))
+        try:
+            tc, _ = corr.tok_cases(prop, 'quick')
+            pc, _ = corr.parse_cases(prop, 'quick')
+            rng = common.rng_for(prop, 'incoq')
+            corr_results.append(corr.in_coq_sample(prop, rng.sample(tc, 60) + tc[-10:],
+                                                   rng.sample(pc, 60) + pc[-10:]))
+        except BaseException:      # noqa
+            import traceback
+            crashes.append({'kind': 'harness-crash', 'stage': 'in-Coq-sample',
+                            'traceback': traceback.format_exc()[-1200:]})
     # 4. direct oracle on the implementation
     oracle = None
     for m in oracle_mods:
         f = getattr(m, 'oracle_' + prop, None)
         if f is not None:
-            oracle = f(tier)
+            try:
+                oracle = f(tier)
+            except BaseException:      # noqa
+                import traceback
+                crashes.append({'kind': 'harness-crash', 'stage': 'oracle',
+                                'traceback': traceback.format_exc()[-1200:]})
+    if oracle is None:
+        oracle = Result('oracle-' + prop)
+        oracle.notes.append('oracle did not complete')
     # 5. verdict
     known = common.load_known()
     lines, violations, known_hits = [], 0, {}
@@ -180,7 +198,7 @@ def main():
                          % (prop, kf['what'], kf.get('example')))
         else:
             lines.append('NOTE: known finding %s no longer reproduces on its recorded example' % kf['id'])
-    broken = []
+    broken = list(crashes)
     if not build.ok:
         broken.append({'kind': 'build', 'stage': build.stage, 'file': build.failed_file,
                        'translation_error': build.translation_error, 'log': build.log[-600:]})
@@ -297,4 +315,18 @@ def replay(path, classifiers):
 
 
 if __name__ == '__main__':
-    sys.exit(main())
+    try:
+        sys.exit(main())
+    except SystemExit:
+        raise
+    except BaseException:        # noqa: last resort - never die without a verdict line
+        import traceback
+        tb = traceback.format_exc()
+        prop = next((a for a in sys.argv[1:] if re.fullmatch(r'C\d+', a)), 'C??')
+        path = write_replay(prop, {'property': prop, 'kind': 'no-failing-input-found',
+                                   'broken_obligations': [{'kind': 'harness-crash', 'stage': 'main',
+                                                           'traceback': tb[-3000:]}],
+                                   'note': 'the check itself crashed on this tree; the property is not shown to hold'})
+        print(tb[-1500:])
+        print('VIOLATION property=%s replay=%s no-failing-input-found' % (prop, path))
+        sys.exit(1)
